@@ -517,14 +517,17 @@ static Scenario make_scenario(int idx, bool concurrent)
                 (void)dd->size();
             };
             s.partner = [dd, destroyed] {
+                // hands objects over while the other thread's callback throws (and while what handles that throw runs)
                 dd->addObjectsToBeDestroyed(std::shared_ptr<E>(new E{destroyed.get(), 6}));
                 (void)dd->size();
+                vrf::hyield();
+                dd->addObjectsToBeDestroyed(std::shared_ptr<E>(new E{destroyed.get(), 7}));
                 (void)dd->destroyObjects();
             };
             s.verify = [dd, destroyed, concurrent, name = s.name](bool, long) {
                 (void)dd->destroyObjects();
-                for (int i : {0, 1, 2, 3, 5, 6}) {
-                    if (i == 6 && !concurrent) continue;
+                for (int i : {0, 1, 2, 3, 5, 6, 7}) {
+                    if (i >= 6 && !concurrent) continue;
                     int d = destroyed.get()[i].load();
                     if (d != 1) vio("oracle:element_not_destroyed_exactly_once_after_throwing_callback", name, "{\"id\":" + std::to_string(i) + ",\"destroyed\":" + std::to_string(d) + "}");
                 }
